@@ -1089,7 +1089,18 @@ pub fn run_property(props: &[Property], id: &str, tier: Tier, emit_json: bool, o
 /// Entry point for the libFuzzer targets under /verif/fuzz: run sub-check `sub` of property `prop` on the
 /// case derived from `data`; a failure whose signature is not an open known finding panics (after
 /// writing a replay file under /verif/failures/<prop>/).
+/// libfuzzer-sys installs a panic hook that aborts the process, but the checks provoke and catch
+/// panics on purpose (documented panics, `guarded`): replace it, once, by a silent hook.  A real
+/// failure ends the process explicitly (see `fuzz_one`).
+pub fn fuzz_init() {
+    static ONCE: std::sync::Once = std::sync::Once::new();
+    ONCE.call_once(|| {
+        std::panic::set_hook(Box::new(|_| {}));
+    });
+}
+
 pub fn fuzz_one(props: &[Property], prop: &str, sub: &str, data: &[u8]) {
+    fuzz_init();
     let p = props.iter().find(|p| p.id == prop).expect("property");
     let sc = p.subs.iter().find(|s| s.name() == sub).expect("sub-check");
     if let Some((f, case)) = sc.run_from_bytes(data) {
@@ -1105,6 +1116,7 @@ pub fn fuzz_one(props: &[Property], prop: &str, sub: &str, data: &[u8]) {
         let rf = ReplayFile { property: prop.to_string(), sub: sub.to_string(), sig: f.sig.clone(), msg: f.msg.clone(), case };
         let _ = std::fs::write(&path, serde_json::to_string_pretty(&rf).unwrap());
         eprintln!("VIOLATION property={} replay={}", prop, path.display());
-        panic!("{}: {}", f.sig, f.msg);
+        eprintln!("  signature: {}\n  {}", f.sig, f.msg);
+        std::process::abort();
     }
 }
